@@ -59,13 +59,23 @@ func row(pts []r2.Point, a, z int) string {
 // visit lists the chords the recursion looks at, in the order of the reference implementation (a port
 // of referenceDouglasPeuckerSimplify on indices [b,e), used ONLY to choose which rows to ship for long
 // lines; the driver reports a model run that needs a row that was not shipped).
-func visit(pts []r2.Point, eps float64, b, e int, rows *[]string, depth int, maxDepth *int, ties *bool, atTol *bool) {
-	if depth > *maxDepth {
-		*maxDepth = depth
+// walk: what the recording walk measures
+type walk struct {
+	rows     *[]string
+	maxDepth int  // recursion depth of the reference
+	maxStack int  // largest len(stack) of the explicit-stack version right after a push (pending right siblings + 2)
+	ties     bool // some visited chord has its maximum attained more than once
+	atTol    bool // some visited chord has its farthest point exactly at the tolerance
+}
+
+// pending = right-hand intervals waiting on the explicit stack while [b,e) is worked on
+func (w *walk) visit(pts []r2.Point, eps float64, b, e int, depth int, pending int) {
+	if depth > w.maxDepth {
+		w.maxDepth = depth
 	}
 	max, maxi, hits := 0.0, 0, 0
-	if e-b >= 3 {
-		*rows = append(*rows, row(pts, b, e-1))
+	if e-b >= 3 && w.rows != nil {
+		*w.rows = append(*w.rows, row(pts, b, e-1))
 	}
 	for i := b + 1; i < e-1; i++ {
 		d := renderer.VerifDistance(pts[b], pts[e-1], pts[i])
@@ -76,14 +86,17 @@ func visit(pts []r2.Point, eps float64, b, e int, rows *[]string, depth int, max
 		}
 	}
 	if hits > 1 {
-		*ties = true
+		w.ties = true
 	}
 	if maxi > 0 && max == eps { // the farthest point lies exactly at the tolerance: `>` keeps the chord, `>=` would split
-		*atTol = true
+		w.atTol = true
 	}
 	if maxi > 0 && max > eps {
-		visit(pts, eps, b, maxi, rows, depth+1, maxDepth, ties, atTol)
-		visit(pts, eps, maxi, e, rows, depth+1, maxDepth, ties, atTol)
+		if pending+2 > w.maxStack {
+			w.maxStack = pending + 2
+		}
+		w.visit(pts, eps, b, maxi, depth+1, pending+1) // the right half waits on the stack
+		w.visit(pts, eps, maxi, e, depth+1, pending)
 	}
 }
 
@@ -177,19 +190,30 @@ func runOne(c *hx.Ctx, pts []r2.Point, eps float64, epsKind string) {
 	n := len(pts)
 	m, vs := vids(pts)
 	var rows []string
-	depth, ties, atTol := 0, false, false
+	w := &walk{maxStack: 1}
 	if n <= 12 { // every chord: the model does not depend on the port above
 		for a := 0; a < n; a++ {
 			for z := a + 2; z < n; z++ {
 				rows = append(rows, row(pts, a, z))
 			}
 		}
-		var dummy []string
-		visit(pts, eps, 0, n, &dummy, 0, &depth, &ties, &atTol)
+		w.visit(pts, eps, 0, n, 0, 0)
 		c.Note("rows:full")
 	} else {
-		visit(pts, eps, 0, n, &rows, 0, &depth, &ties, &atTol)
+		w.rows = &rows
+		w.visit(pts, eps, 0, n, 0, 0)
 		c.Note("rows:visited")
+	}
+	depth, ties, atTol := w.maxDepth, w.ties, w.atTol
+	switch {
+	case w.maxStack <= 8:
+		c.Note("stack:<=8")
+	case w.maxStack <= 64:
+		c.Note("stack:9-64")
+	case w.maxStack <= 256:
+		c.Note("stack:65-256")
+	default:
+		c.Note("stack:>256")
 	}
 	var iter, ref string
 	if eps < 0 && !negInProcess {
@@ -216,8 +240,12 @@ func runOne(c *hx.Ctx, pts []r2.Point, eps float64, epsKind string) {
 		c.Note("n:9-30")
 	case n <= 80:
 		c.Note("n:31-80")
-	default:
+	case n <= 200:
 		c.Note("n:81-200")
+	case n <= 600:
+		c.Note("n:201-600")
+	default:
+		c.Note("n:601-2000")
 	}
 	c.Note("eps:" + epsKind)
 	if len(m) < n {
@@ -377,6 +405,84 @@ func genPoints(c *hx.Ctx) []r2.Point {
 	return pts
 }
 
+// genLopsided: lines on which the farthest point is always near one end, so that one side of every split
+// is tiny and the other keeps splitting: the explicit stack (inside-out shapes) or the pending left work
+// (outside-in shapes) gets as deep as the line is long.
+func genLopsided(c *hx.Ctx) ([]r2.Point, float64) {
+	r := c.Rand
+	var n int
+	switch k := r.Intn(20); {
+	case k < 14:
+		n = 250 + r.Intn(150)
+	case k < 19:
+		n = 400 + r.Intn(300)
+	default:
+		n = 700 + r.Intn(500)
+	}
+	if c.Thorough() && r.Chance(1, 8) {
+		n = 1200 + r.Intn(800)
+	}
+	pts := make([]r2.Point, 0, n)
+	switch r.Intn(4) {
+	case 0: // square spiral from the centre, 1..3 points per side, sides growing: stack depth ~ n/4 .. n/6
+		pps := 1 + r.Intn(3)
+		x, y, dx, dy, length := 0.0, 0.0, 1.0, 0.0, 1.0
+		for side := 0; len(pts) < n; side++ {
+			for k := 0; k < pps && len(pts) < n; k++ {
+				t := float64(k) / float64(pps)
+				pts = append(pts, r2.Point{X: x + dx*length*t, Y: y + dy*length*t})
+			}
+			x, y = x+dx*length, y+dy*length
+			dx, dy = -dy, dx
+			if side%2 == 1 {
+				length++
+			}
+		}
+		c.Note("shape:square-spiral")
+	case 1: // Archimedean spiral from the centre; few points per turn make every split peel one or two points
+		step := []float64{1.7, 1.7, 1.0, 2.2, 0.35}[r.Intn(5)]
+		for i := 0; i < n; i++ {
+			a := step * float64(i)
+			rad := 1 + 0.3*a
+			pts = append(pts, r2.Point{X: rad * math.Cos(a), Y: rad * math.Sin(a)})
+		}
+		c.Note("shape:smooth-spiral")
+	case 2: // comb: teeth whose height grows quadratically, the farthest point is always the last tooth
+		for i := 0; i < n; i++ {
+			h := 0.0
+			if i%2 == 1 {
+				h = float64(i*i) / 64
+			}
+			pts = append(pts, r2.Point{X: float64(i), Y: h})
+		}
+		c.Note("shape:comb")
+	default: // staircase with growing risers
+		x, y := 0.0, 0.0
+		for i := 0; i < n; i++ {
+			pts = append(pts, r2.Point{X: x, Y: y})
+			if i%2 == 0 {
+				x++
+			} else {
+				y += float64(i)
+			}
+		}
+		c.Note("shape:staircase")
+	}
+	if r.Chance(1, 3) { // walked from the outside in: the recursion of the reference gets deep, the stack stays flat
+		for i, j := 0, n-1; i < j; i, j = i+1, j-1 {
+			pts[i], pts[j] = pts[j], pts[i]
+		}
+		c.Note("lopsided:outside-in")
+	} else {
+		c.Note("lopsided:inside-out")
+	}
+	for i := range pts {
+		pts[i].X += 0
+		pts[i].Y += 0
+	}
+	return pts, []float64{0, 0.05, 0.3}[r.Intn(3)]
+}
+
 func genEps(c *hx.Ctx, pts []r2.Point) (float64, string) {
 	r := c.Rand
 	n := len(pts)
@@ -424,7 +530,7 @@ func main() {
 	hx.RegisterChild("ref", child("ref"))
 	hx.Main(hx.Family{
 		Name: "c34",
-		Rule: "one line (2..200 points; 8 shapes: integer grid, floats, collinear runs, axis-aligned zigzag with exact ties, ring, walk, spikes, extreme magnitudes; modifiers: repeated runs, all-equal, closed loop) simplified with 1-3 tolerances (0, 1..3, 5, an actual distance +-1ulp, random, +Inf, NaN, denormal, -0, negative); non-trivial = at least 3 points and the result keeps some but not all interior points; distinct = by hash of the op text",
+		Rule: "one line (2..200 points, and in 1 case of 60 a lopsided line of 250..2000 points: square/smooth spirals, growing staircase, comb, walked inside-out or outside-in, so that the explicit stack or the recursion gets as deep as the line; 8 shapes: integer grid, floats, collinear runs, axis-aligned zigzag with exact ties, ring, walk, spikes, extreme magnitudes; modifiers: repeated runs, all-equal, closed loop) simplified with 1-3 tolerances (0, 1..3, 5, an actual distance +-1ulp, random, +Inf, NaN, denormal, -0, negative); non-trivial = at least 3 points and the result keeps some but not all interior points; distinct = by hash of the op text",
 		Quick:    3000,
 		Thorough: 50000,
 		Corpus: func(c *hx.Ctx) {
@@ -446,6 +552,11 @@ func main() {
 			c.NonTrivial()
 		},
 		Case: func(c *hx.Ctx) {
+			if c.Rand.Chance(1, 60) || c.CaseNo < 2 {
+				pts, eps := genLopsided(c)
+				runOne(c, pts, eps, "lopsided-small")
+				return
+			}
 			pts := genPoints(c)
 			if c.Rand.Chance(1, 200) {
 				pts = pts[:c.Rand.Intn(2)]
